@@ -36,8 +36,13 @@
      refreshes the lease, or finds it gone and
      closes session.Done()
    watcher goroutine: <-session.Done(): if locked    LWatch i
-     {setError(ErrLockSessionDone); cancel} else
+     {setError(ErrLockSessionDone); return} else
      wait for the parent context
+   the watcher's deferred cancel(): Done() of the     LCancel i
+     returned context closes.  Between LWatch and
+     LCancel the code performs no call to the store
+     (theorem etcd_watch_cancel_store_free): the
+     notification cannot block on an unreachable etcd
    the lockCtx deadline fires inside the tryAcquire  LAcqLost i
      RPC after the server applied the txn: the call
      fails with the deadline error, myRev stays -1
@@ -56,7 +61,7 @@ Inductive err := ErrLocked | ErrDeadline | ErrSessionExpired | ErrLeaseNotFound.
 Inductive pc :=
 | Idle | Called (o : lop) | Waiting | Verify | TimingOut | TryDel
 | Held | Unlocking | Closing | Done | Failed (e : err).
-Inductive wst := WNone | WWatching | WParked | WExit.
+Inductive wst := WNone | WWatching | WCancelling | WParked | WExit.
 
 Record cont := mkCont {
   c_pc : pc;
@@ -87,7 +92,8 @@ Inductive label :=
 | LTick (d : Z)
 | LKeepAlive (i : nat)
 | LWatch (i : nat)
-| LAcqLost (i : nat).
+| LAcqLost (i : nat)
+| LCancel (i : nat).
 
 Definition all_keys (_ : Z) : bool := true.
 
@@ -230,6 +236,15 @@ Definition step (s : sys) (l : label) : option sys :=
           end
       | None => None
       end
+  | LCancel i =>
+      match nth_error (s_cs s) i with
+      | Some c =>
+          match c_w c with
+          | WCancelling => with_c s i kv (mkCont (c_pc c) (c_lease c) (c_rev c) (c_locked c) (c_sdone c) WExit (c_ctx c))
+          | _ => None
+          end
+      | None => None
+      end
   | LWatch i =>
       match nth_error (s_cs s) i with
       | Some c =>
@@ -237,7 +252,7 @@ Definition step (s : sys) (l : label) : option sys :=
           | WWatching =>
               if c_sdone c then
                 if c_locked c
-                then with_c s i kv (mkCont (c_pc c) (c_lease c) (c_rev c) (c_locked c) (c_sdone c) WExit CtxSessionDone)
+                then with_c s i kv (mkCont (c_pc c) (c_lease c) (c_rev c) (c_locked c) (c_sdone c) WCancelling CtxSessionDone)
                 else with_c s i kv (mkCont (c_pc c) (c_lease c) (c_rev c) (c_locked c) (c_sdone c) WParked (c_ctx c))
               else None
           | _ => None
@@ -259,6 +274,14 @@ Definition pc_eqb (a b : pc) : bool :=
       | _, _ => false
       end
   | _, _ => false
+  end.
+
+(* what an observer of the returned context sees *)
+Definition ctx_view (c : cont) : cerr :=
+  match c_ctx c, c_w c with
+  | CtxSessionDone, WExit => CtxSessionDone
+  | CtxSessionDone, _ => CtxErrOpen
+  | x, _ => x
   end.
 
 Definition lease_live (s : sys) (c : cont) : bool := e_lease_live (s_kv s) (c_lease c).
@@ -368,10 +391,11 @@ Definition ferr_of (e : err) : ferr :=
   | ErrLocked => FBusy | ErrDeadline => FTimeout | ErrSessionExpired => FExpired | ErrLeaseNotFound => FOther
   end.
 
-(* helper threads of i run to quiescence: keepalive iteration, then the watcher *)
+(* helper threads of i run to quiescence: keepalive iteration, the watcher, its deferred cancel *)
 Definition settle_ctx (s : sys) (i : nat) : sys :=
   let s1 := match step s (LKeepAlive i) with Some x => x | None => s end in
-  match step s1 (LWatch i) with Some x => x | None => s1 end.
+  let s2 := match step s1 (LWatch i) with Some x => x | None => s1 end in
+  match step s2 (LCancel i) with Some x => x | None => s2 end.
 
 Definition do_ev (a : acc) (e : cev) : option acc :=
   let s := a_sys a in
@@ -407,7 +431,7 @@ Definition do_ev (a : acc) (e : cev) : option acc :=
   | ECtx i c =>
       let s' := settle_ctx s i in
       match nth_error (s_cs s') i with
-      | Some k => if cerr_eqb (c_ctx k) c then Some (mkAcc s' (a_lose a) (a_in a)) else None
+      | Some k => if cerr_eqb (ctx_view k) c then Some (mkAcc s' (a_lose a) (a_in a)) else None
       | None => None
       end
   end.
